@@ -622,4 +622,427 @@ theorem detachPure_spec {t : ObjectTree} {obj arg : Nat} (hs : t.pool.size ≤ I
       apply_ite Obj.nextSiblingIndex, apply_ite Obj.prevSiblingIndex, apply_ite Obj.parentIndex,
       apply_ite Obj.firstArgIndex, apply_ite Obj.lastArgIndex, apply_ite Obj.index, hidx, ite_self] at * <;> grind
 
+theorem freeChain_dead {t : ObjectTree} : ∀ (l : List Nat) (a : Nat), FreeChain t a l → ∀ x ∈ l, live t x = false := by
+  intro l
+  induction l with
+  | nil => intro a _ x hx; simp at hx
+  | cons y ys ih =>
+    intro a hc x hx
+    obtain ⟨rfl, _, hl, hc'⟩ := hc
+    rcases List.mem_cons.1 hx with rfl | hx
+    · exact hl
+    · exact ih _ hc' x hx
+
+/-- an operation that only rewires links of live objects: the non-link parts of `WF` carry over -/
+theorem WF.transfer {t t' : ObjectTree} (w : WF t) (hsz : t'.pool.size = t.pool.size)
+    (hfh : t'.freeListHeadIndex = t.freeListHeadIndex)
+    (hlive : ∀ x, live t' x = live t x) (hidx : ∀ x, (slot t' x).index = (slot t x).index)
+    (hnx : ∀ x, live t x = false → Nx t' x = Nx t x)
+    (hloc : ∀ i, live t' i = true → LocalP t' i)
+    (hrk : ∃ rk : Nat → Nat, ∀ i, live t' i = true → P t' i ≠ INV → rk (P t' i) < rk i)
+    (hpos : ∃ pos : Nat → Nat, ∀ i, live t' i = true → Nx t' i ≠ INV → pos i < pos (Nx t' i)) : WF t' := by
+  refine ⟨by rw [hsz]; exact w.size_le, ?_, fun i hl => (localOK_iff t' i).2 (hloc i hl), hrk, hpos, ?_⟩
+  · intro i hi; rw [hidx]; exact w.index_eq i (by rw [← hsz]; exact hi)
+  · obtain ⟨fl, hc, hall⟩ := w.free
+    refine ⟨fl, ?_, ?_⟩
+    · rw [hfh]
+      apply freeChain_congr (t := t) (by omega) fl _ _ hc
+      intro x hx
+      exact ⟨hlive x, hnx x (freeChain_dead fl _ hc x hx)⟩
+    · intro i hi hl
+      exact hall i (by rw [← hsz]; exact hi) (by rw [← hlive]; exact hl)
+
+theorem detach_loc {t t' : ObjectTree} (w : WF t) {obj arg : Nat}
+    (ho : live t obj = true) (ha : live t arg = true) (hp : P t arg = obj)
+    (hlive : ∀ x, live t' x = live t x)
+    (hP : ∀ x, P t' x = if x = arg then INV else P t x)
+    (hPv : ∀ x, Pv t' x = if x = arg then INV else if x = Nx t arg ∧ Nx t arg ≠ INV then Pv t arg else Pv t x)
+    (hNx : ∀ x, Nx t' x = if x = arg then INV else if x = Pv t arg ∧ Pv t arg ≠ INV then Nx t arg else Nx t x)
+    (hFi : ∀ x, Fi t' x = if x = obj ∧ Fi t obj = arg then Nx t arg else Fi t x)
+    (hLa : ∀ x, La t' x = if x = obj ∧ La t obj = arg then Pv t arg else La t x)
+    (rk : Nat → Nat) (hrk : ∀ i, live t i = true → P t i ≠ INV → rk (P t i) < rk i)
+    (pos : Nat → Nat) (hpos : ∀ i, live t i = true → Nx t i ≠ INV → pos i < pos (Nx t i)) :
+    ∀ i, live t' i = true → LocalP t' i := by
+  intro i hi
+  rw [hlive] at hi
+  have hinv : ∀ j, live t j = true → j ≠ INV := fun j hj => live_ne_INV w.size_le hj
+  have L1 := fun j (hj : live t j = true) => (w.lP hj).lp
+  have L2 := fun j (hj : live t j = true) => (w.lP hj).lpv
+  have L3 := fun j (hj : live t j = true) => (w.lP hj).lnx
+  have L4 := fun j (hj : live t j = true) => (w.lP hj).lfi
+  have L5 := fun j (hj : live t j = true) => (w.lP hj).lla
+  have C1 := fun j (hj : live t j = true) => (w.lP hj).det
+  have C2 := fun j (hj : live t j = true) => (w.lP hj).pv
+  have C3 := fun j (hj : live t j = true) => (w.lP hj).nx
+  have C4 := fun j (hj : live t j = true) => (w.lP hj).first
+  have C5 := fun j (hj : live t j = true) => (w.lP hj).last
+  have C6 := fun j (hj : live t j = true) => (w.lP hj).fi
+  have C7 := fun j (hj : live t j = true) => (w.lP hj).la
+  have C8 := fun j (hj : live t j = true) => (w.lP hj).ends
+  constructor
+  all_goals (simp only [hP, hPv, hNx, hFi, hLa, hlive])
+  all_goals grind
+
+/-- what `detachPure` leaves alone -/
+theorem detachPure_frame (t : ObjectTree) (obj arg : Nat) :
+    (detachPure t obj arg).pool.size = t.pool.size ∧
+    (detachPure t obj arg).freeListHeadIndex = t.freeListHeadIndex ∧
+    (∀ x, live (detachPure t obj arg) x = live t x) ∧
+    (∀ x, (slot (detachPure t obj arg) x).index = (slot t x).index) ∧
+    (∀ x, (slot (detachPure t obj arg) x).name = (slot t x).name) := by
+  refine ⟨by simp [detachPure], by simp [detachPure], ?_, ?_, ?_⟩
+  · intro x
+    simp only [detachPure]
+    rw [live_keep _ _ _ _ (by keep_tac), live_keep _ _ _ _ (by keep_tac), live_keep _ _ _ _ (by keep_tac),
+      live_keep _ _ _ _ (by keep_tac), live_keep _ _ _ _ (by keep_tac), live_keep _ _ _ _ (by keep_tac),
+      live_keep _ _ _ _ (by keep_tac)]
+  · intro x
+    simp only [detachPure, slot_setAt', apply_ite Obj.index, ite_self]
+  · intro x
+    simp only [detachPure, slot_setAt', apply_ite Obj.name, ite_self]
+
+/-- **detach** under its contract: succeeds, preserves `WF`; links change as stated -/
+theorem detach_wf {t : ObjectTree} (w : WF t) {obj arg : Nat} (hpre : detachPre t obj arg = true) :
+    ∃ t', t.detach obj arg = .ok t' ∧ WF t' ∧
+      t'.pool.size = t.pool.size ∧ (∀ x, live t' x = live t x) ∧ (∀ x, (slot t' x).name = (slot t x).name) ∧
+      (∀ x, P t' x = if x = arg then INV else P t x) ∧
+      (∀ x, Pv t' x = if x = arg then INV else if x = Nx t arg ∧ Nx t arg ≠ INV then Pv t arg else Pv t x) ∧
+      (∀ x, Nx t' x = if x = arg then INV else if x = Pv t arg ∧ Pv t arg ≠ INV then Nx t arg else Nx t x) ∧
+      (∀ x, Fi t' x = if x = obj ∧ Fi t obj = arg then Nx t arg else Fi t x) ∧
+      (∀ x, La t' x = if x = obj ∧ La t obj = arg then Pv t arg else La t x) := by
+  simp only [detachPre, Bool.and_eq_true, decide_eq_true_eq] at hpre
+  obtain ⟨⟨ho, ha⟩, hp⟩ := hpre
+  obtain ⟨rk, hrk⟩ := w.rank
+  obtain ⟨pos, hpos⟩ := w.order
+  have lpa := w.lP ha
+  have hinv : ∀ j, live t j = true → j ≠ INV := fun j hj => live_ne_INV w.size_le hj
+  have hoa : obj ≠ arg := by
+    intro e
+    have := hrk arg ha (by rw [hp]; exact hinv _ ho)
+    rw [hp, e] at this; omega
+  have hna : Nx t arg ≠ arg := by
+    intro e
+    have := hpos arg ha (by rw [e]; exact hinv _ ha)
+    rw [e] at this; omega
+  have hpa : Pv t arg ≠ arg := by
+    intro e
+    have h1 : Pv t arg ≠ INV := by rw [e]; exact hinv _ ha
+    have hl := lpa.lpv.resolve_left h1
+    have := hpos _ hl (by rw [(lpa.pv h1).1]; exact hinv _ ha)
+    rw [(lpa.pv h1).1] at this
+    rw [e] at this; omega
+  have hlt : ∀ y, (y = INV ∨ live t y = true) → (y = INV ∨ y < t.pool.size) :=
+    fun y hy => hy.elim Or.inl (fun h => Or.inr (live_lt h))
+  refine ⟨detachPure t obj arg, detach_eq w.size_le (live_lt ho) (live_lt ha) lpa.lnx lpa.lpv hna, ?_⟩
+  obtain ⟨hP, hPv, hNx, hFi, hLa⟩ := detachPure_spec w.size_le (live_lt ho) (live_lt ha)
+    (w.index_eq arg (live_lt ha)) hoa hna hpa (hlt _ lpa.lnx) (hlt _ lpa.lpv)
+  obtain ⟨hsz, hfh, hlive, hidx, hname⟩ := detachPure_frame t obj arg
+  generalize detachPure t obj arg = T at *
+  refine ⟨?_, hsz, hlive, hname, hP, hPv, hNx, hFi, hLa⟩
+  apply w.transfer hsz hfh hlive hidx
+  · intro x hx
+    rw [hNx]
+    have h1 : x ≠ arg := fun e => by rw [e, ha] at hx; cases hx
+    have h2 : ¬ (x = Pv t arg ∧ Pv t arg ≠ INV) := fun ⟨e, h⟩ => by
+      have := lpa.lpv.resolve_left h
+      rw [← e, hx] at this; cases this
+    simp [h1, h2]
+  · exact detach_loc w ho ha hp hlive hP hPv hNx hFi hLa rk hrk pos hpos
+  · refine ⟨rk, fun i hl hpi => ?_⟩
+    rw [hlive] at hl
+    rw [hP] at hpi ⊢
+    split at hpi
+    · exact absurd rfl hpi
+    · rename_i h; simp only [h, if_false]; exact hrk i hl hpi
+  · refine ⟨pos, fun i hl hni => ?_⟩
+    rw [hlive] at hl
+    rw [hNx] at hni ⊢
+    have C2 := fun j (hj : live t j = true) => (w.lP hj).pv
+    have L2 := fun j (hj : live t j = true) => (w.lP hj).lpv
+    grind
+
+/-! ### append -/
+
+/-- the state `append(obj, arg)` produces when every dereference succeeds -/
+def appendPure (t : ObjectTree) (obj arg : Nat) : ObjectTree :=
+  let t1 := setAt t arg fun a => { a with parentIndex := (slot t obj).index }
+  if La t1 obj = InvalidIndex then
+    let t2 := setAt t1 obj fun o => { o with firstArgIndex := (slot t1 arg).index }
+    setAt t2 obj fun o => { o with lastArgIndex := (slot t1 arg).index }
+  else
+    let t2 := setAt t1 (La t1 obj) fun l => { l with nextSiblingIndex := (slot t1 arg).index }
+    let t3 := setAt t2 arg fun a => { a with prevSiblingIndex := (slot t2 (La t1 obj)).index }
+    let t4 := setAt t3 arg fun a => { a with nextSiblingIndex := InvalidIndex }
+    setAt t4 obj fun o => { o with lastArgIndex := (slot t1 arg).index }
+
+theorem append_eq {t : ObjectTree} {obj arg : Nat} (ho : obj < t.pool.size) (ha : arg < t.pool.size)
+    (hla : ∀ t1, t1 = (setAt t arg fun a => { a with parentIndex := (slot t obj).index }) →
+       La t1 obj = INV ∨ live t1 (La t1 obj) = true) :
+    t.append obj arg = .ok (appendPure t obj arg) := by
+  unfold ObjectTree.append appendPure
+  simp only [obj_eq ho, bind, Except.bind]
+  rw [upd_eq _ ha]
+  simp only []
+  have hla := hla _ rfl
+  generalize hT : (setAt t arg fun a => { a with parentIndex := (slot t obj).index }) = t1 at *
+  have hs1 : t1.pool.size = t.pool.size := by rw [← hT]; simp
+  have ho1 : obj < t1.pool.size := by omega
+  have ha1 : arg < t1.pool.size := by omega
+  rw [obj_eq ho1, obj_eq ha1]
+  simp only []
+  by_cases c : (slot t1 obj).lastArgIndex = InvalidIndex
+  · have c' : La t1 obj = InvalidIndex := c
+    simp only [c, c', if_true]
+    rw [upd_eq _ ho1]
+    simp only []
+    rw [upd_eq _ (by simpa using ho1)]
+  · have c' : ¬ La t1 obj = InvalidIndex := c
+    have hl : live t1 (La t1 obj) = true := hla.resolve_left c
+    have hl' : live t1 (slot t1 obj).lastArgIndex = true := hl
+    simp only [c, c', if_false, objectAt_live hl', deref_some]
+    rw [upd_eq _ (live_lt hl')]
+    simp only []
+    rw [obj_eq (by simpa using live_lt hl')]
+    simp only []
+    rw [upd_eq _ (by simpa using ha1)]
+    simp only []
+    rw [upd_eq _ (by simpa using ha1)]
+    simp only []
+    rw [upd_eq _ (by simpa using ho1)]
+    rfl
+
+theorem appendPure_spec {t : ObjectTree} {obj arg : Nat} (hs : t.pool.size ≤ INV)
+    (ho : obj < t.pool.size) (ha : arg < t.pool.size)
+    (hio : (slot t obj).index = obj) (hia : (slot t arg).index = arg)
+    (hil : La t obj ≠ INV → La t obj < t.pool.size ∧ (slot t (La t obj)).index = La t obj)
+    (hoa : obj ≠ arg) (hlo : La t obj ≠ arg) (hpv : Pv t arg = INV) (hnx : Nx t arg = INV) :
+    (∀ x, P (appendPure t obj arg) x = if x = arg then obj else P t x) ∧
+    (∀ x, Pv (appendPure t obj arg) x = if x = arg then La t obj else Pv t x) ∧
+    (∀ x, Nx (appendPure t obj arg) x =
+      if x = arg then INV else if x = La t obj ∧ La t obj ≠ INV then arg else Nx t x) ∧
+    (∀ x, Fi (appendPure t obj arg) x = if x = obj ∧ La t obj = INV then arg else Fi t x) ∧
+    (∀ x, La (appendPure t obj arg) x = if x = obj then arg else La t x) := by
+  have h1 : La (setAt t arg fun a => { a with parentIndex := (slot t obj).index }) obj = La t obj :=
+    La_keep _ _ _ _ (by keep_tac)
+  by_cases c : La t obj = InvalidIndex
+  · have c1 : La (setAt t arg fun a => { a with parentIndex := (slot t obj).index }) obj = InvalidIndex := by
+      rw [h1]; exact c
+    refine ⟨?_, ?_, ?_, ?_, ?_⟩ <;> intro x <;> simp only [appendPure, h1, c, if_true] <;>
+      simp only [P, Pv, Nx, Fi, La, slot_setAt', size_setAt,
+        apply_ite Obj.nextSiblingIndex, apply_ite Obj.prevSiblingIndex, apply_ite Obj.parentIndex,
+        apply_ite Obj.firstArgIndex, apply_ite Obj.lastArgIndex, apply_ite Obj.index, hio, hia, ite_self] at * <;> grind
+  · have c1 : ¬ La (setAt t arg fun a => { a with parentIndex := (slot t obj).index }) obj = InvalidIndex := by
+      rw [h1]; exact c
+    obtain ⟨hll, hil⟩ := hil c
+    refine ⟨?_, ?_, ?_, ?_, ?_⟩ <;> intro x <;> simp only [appendPure, h1, c, if_false] <;>
+      simp only [P, Pv, Nx, Fi, La, slot_setAt', size_setAt,
+        apply_ite Obj.nextSiblingIndex, apply_ite Obj.prevSiblingIndex, apply_ite Obj.parentIndex,
+        apply_ite Obj.firstArgIndex, apply_ite Obj.lastArgIndex, apply_ite Obj.index, hio, hia, ite_self] at * <;> grind
+
+theorem append_loc {t t' : ObjectTree} (w : WF t) {obj arg : Nat}
+    (ho : live t obj = true) (ha : live t arg = true) (hp : P t arg = INV) (hoa : obj ≠ arg)
+    (hlive : ∀ x, live t' x = live t x)
+    (hP : ∀ x, P t' x = if x = arg then obj else P t x)
+    (hPv : ∀ x, Pv t' x = if x = arg then La t obj else Pv t x)
+    (hNx : ∀ x, Nx t' x = if x = arg then INV else if x = La t obj ∧ La t obj ≠ INV then arg else Nx t x)
+    (hFi : ∀ x, Fi t' x = if x = obj ∧ La t obj = INV then arg else Fi t x)
+    (hLa : ∀ x, La t' x = if x = obj then arg else La t x) :
+    ∀ i, live t' i = true → LocalP t' i := by
+  intro i hi
+  rw [hlive] at hi
+  have hinv : ∀ j, live t j = true → j ≠ INV := fun j hj => live_ne_INV w.size_le hj
+  have L1 := fun j (hj : live t j = true) => (w.lP hj).lp
+  have L2 := fun j (hj : live t j = true) => (w.lP hj).lpv
+  have L3 := fun j (hj : live t j = true) => (w.lP hj).lnx
+  have L4 := fun j (hj : live t j = true) => (w.lP hj).lfi
+  have L5 := fun j (hj : live t j = true) => (w.lP hj).lla
+  have C1 := fun j (hj : live t j = true) => (w.lP hj).det
+  have C2 := fun j (hj : live t j = true) => (w.lP hj).pv
+  have C3 := fun j (hj : live t j = true) => (w.lP hj).nx
+  have C4 := fun j (hj : live t j = true) => (w.lP hj).first
+  have C5 := fun j (hj : live t j = true) => (w.lP hj).last
+  have C6 := fun j (hj : live t j = true) => (w.lP hj).fi
+  have C7 := fun j (hj : live t j = true) => (w.lP hj).la
+  have C8 := fun j (hj : live t j = true) => (w.lP hj).ends
+  constructor
+  all_goals (simp only [hP, hPv, hNx, hFi, hLa, hlive])
+  all_goals grind
+
+/-- what `appendPure` leaves alone -/
+theorem appendPure_frame (t : ObjectTree) (obj arg : Nat) :
+    (appendPure t obj arg).pool.size = t.pool.size ∧
+    (appendPure t obj arg).freeListHeadIndex = t.freeListHeadIndex ∧
+    (∀ x, live (appendPure t obj arg) x = live t x) ∧
+    (∀ x, (slot (appendPure t obj arg) x).index = (slot t x).index) ∧
+    (∀ x, (slot (appendPure t obj arg) x).name = (slot t x).name) := by
+  unfold appendPure
+  simp only []
+  split
+  · refine ⟨by simp, by simp, ?_, ?_, ?_⟩
+    · intro x
+      rw [live_keep _ _ _ _ (by keep_tac), live_keep _ _ _ _ (by keep_tac), live_keep _ _ _ _ (by keep_tac)]
+    · intro x; simp only [slot_setAt', apply_ite Obj.index, ite_self]
+    · intro x; simp only [slot_setAt', apply_ite Obj.name, ite_self]
+  · refine ⟨by simp, by simp, ?_, ?_, ?_⟩
+    · intro x
+      rw [live_keep _ _ _ _ (by keep_tac), live_keep _ _ _ _ (by keep_tac), live_keep _ _ _ _ (by keep_tac),
+        live_keep _ _ _ _ (by keep_tac), live_keep _ _ _ _ (by keep_tac)]
+    · intro x; simp only [slot_setAt', apply_ite Obj.index, ite_self]
+    · intro x; simp only [slot_setAt', apply_ite Obj.name, ite_self]
+
+/-! ### ancestors -/
+
+/-- `a` lies on the parent chain of `x` (is `x` or an ancestor of `x`) -/
+def anc (t : ObjectTree) (a x : Nat) : Prop := ∃ l, Chain t (P t) x l ∧ a ∈ l
+
+theorem chain_det {t : ObjectTree} (step : Nat → Nat) (hs : t.pool.size ≤ INV) :
+    ∀ (l1 l2 : List Nat) (a : Nat), Chain t step a l1 → Chain t step a l2 → l1 = l2 := by
+  intro l1
+  induction l1 with
+  | nil =>
+    intro l2 a h1 h2
+    cases l2 with
+    | nil => rfl
+    | cons y ys =>
+      have : a = INV := h1
+      obtain ⟨rfl, hy, _⟩ := h2
+      exact absurd this (live_ne_INV hs hy)
+  | cons x xs ih =>
+    intro l2 a h1 h2
+    obtain ⟨rfl, hx, h1'⟩ := h1
+    cases l2 with
+    | nil => exact absurd (h2 : a = INV) (live_ne_INV hs hx)
+    | cons y ys =>
+      obtain ⟨rfl, _, h2'⟩ := h2
+      rw [ih ys _ h1' h2']
+
+theorem isAnc_of_chain {t : ObjectTree} (hs : t.pool.size ≤ INV) (a : Nat) :
+    ∀ (l : List Nat) (f x : Nat), Chain t (P t) x l → l.length ≤ f → a ∈ l →
+      isAncestorOrSelf t a f x = true := by
+  intro l
+  induction l with
+  | nil => intro f x _ _ h; simp at h
+  | cons y ys ih =>
+    intro f x hc hf hm
+    obtain ⟨rfl, hl, hc'⟩ := hc
+    cases f with
+    | zero => simp at hf
+    | succ f =>
+      simp only [isAncestorOrSelf, Bool.or_eq_true, decide_eq_true_eq, Bool.and_eq_true, ne_eq, decide_not,
+        Bool.not_eq_true', decide_eq_false_iff_not]
+      rcases List.mem_cons.1 hm with e | e
+      · exact Or.inl e.symm
+      · right
+        cases ys with
+        | nil => simp at e
+        | cons z zs =>
+          obtain ⟨hz, hzl, _⟩ := id hc'
+          refine ⟨by rw [hz]; exact live_ne_INV hs hzl, ?_⟩
+          exact ih f _ hc' (by simpa using hf) e
+
+theorem WF.not_anc {t : ObjectTree} (w : WF t) {a x : Nat} (hx : live t x = true)
+    (h : isAncestorOrSelf t a t.fuel x = false) : ¬ anc t a x := by
+  rintro ⟨l, hc, hm⟩
+  obtain ⟨l', hc', hlen⟩ := w.parChain x (Or.inr hx)
+  have := chain_det (P t) w.size_le _ _ _ hc hc'
+  subst this
+  have := isAnc_of_chain w.size_le a l t.fuel x hc (by simp [ObjectTree.fuel]; omega) hm
+  rw [h] at this; cases this
+
+theorem WF.anc_self {t : ObjectTree} (w : WF t) {a : Nat} (ha : live t a = true) : anc t a a := by
+  obtain ⟨l, hc, _⟩ := w.parChain a (Or.inr ha)
+  cases l with
+  | nil => exact absurd (hc : a = INV) (live_ne_INV w.size_le ha)
+  | cons y ys => obtain ⟨rfl, _, _⟩ := id hc; exact ⟨_, hc, by simp⟩
+
+theorem WF.anc_step {t : ObjectTree} (w : WF t) {a i : Nat} (hi : live t i = true) (hne : i ≠ a) :
+    anc t a i ↔ anc t a (P t i) := by
+  constructor
+  · rintro ⟨l, hc, hm⟩
+    cases l with
+    | nil => exact absurd (hc : i = INV) (live_ne_INV w.size_le hi)
+    | cons y ys =>
+      obtain ⟨rfl, _, hc'⟩ := hc
+      rcases List.mem_cons.1 hm with e | e
+      · exact absurd e.symm hne
+      · exact ⟨ys, hc', e⟩
+  · rintro ⟨l, hc, hm⟩
+    exact ⟨i :: l, ⟨rfl, hi, hc⟩, List.mem_cons_of_mem _ hm⟩
+
+/-- **append** under its contract: succeeds, preserves `WF`; links change as stated -/
+theorem append_wf {t : ObjectTree} (w : WF t) {obj arg : Nat} (hpre : appendPre t obj arg = true) :
+    ∃ t', t.append obj arg = .ok t' ∧ WF t' ∧
+      t'.pool.size = t.pool.size ∧ (∀ x, live t' x = live t x) ∧ (∀ x, (slot t' x).name = (slot t x).name) ∧
+      (∀ x, P t' x = if x = arg then obj else P t x) ∧
+      (∀ x, Pv t' x = if x = arg then La t obj else Pv t x) ∧
+      (∀ x, Nx t' x = if x = arg then INV else if x = La t obj ∧ La t obj ≠ INV then arg else Nx t x) ∧
+      (∀ x, Fi t' x = if x = obj ∧ La t obj = INV then arg else Fi t x) ∧
+      (∀ x, La t' x = if x = obj then arg else La t x) := by
+  simp only [appendPre, Bool.and_eq_true, decide_eq_true_eq, Bool.not_eq_true'] at hpre
+  obtain ⟨⟨⟨ho, ha⟩, hp⟩, hanc⟩ := hpre
+  obtain ⟨rk, hrk⟩ := w.rank
+  obtain ⟨pos, hpos⟩ := w.order
+  have lpa := w.lP ha
+  have lpo := w.lP ho
+  have hinv : ∀ j, live t j = true → j ≠ INV := fun j hj => live_ne_INV w.size_le hj
+  have hnanc : ¬ anc t arg obj := w.not_anc ho hanc
+  have hoa : obj ≠ arg := fun e => hnanc (by rw [e]; exact w.anc_self ha)
+  have hpv : Pv t arg = INV := (lpa.det hp).1
+  have hnx : Nx t arg = INV := (lpa.det hp).2
+  have hlo : La t obj ≠ arg := by
+    intro e
+    have h1 : La t obj ≠ INV := by rw [e]; exact hinv _ ha
+    have := (lpo.la h1).1
+    rw [e, hp] at this
+    exact hinv _ ho this.symm
+  have hil : La t obj ≠ INV → La t obj < t.pool.size ∧ (slot t (La t obj)).index = La t obj := by
+    intro h
+    have hl := live_lt (lpo.lla.resolve_left h)
+    exact ⟨hl, w.index_eq _ hl⟩
+  have heq : t.append obj arg = .ok (appendPure t obj arg) := by
+    apply append_eq (live_lt ho) (live_lt ha)
+    intro t1 ht1
+    have h1 : La t1 obj = La t obj := by rw [ht1]; exact La_keep _ _ _ _ (by keep_tac)
+    have h2 : ∀ x, live t1 x = live t x := by intro x; rw [ht1]; exact live_keep _ _ _ _ (by keep_tac)
+    rw [h1, h2]; exact lpo.lla
+  refine ⟨appendPure t obj arg, heq, ?_⟩
+  obtain ⟨hP, hPv, hNx, hFi, hLa⟩ := appendPure_spec w.size_le (live_lt ho) (live_lt ha)
+    (w.index_eq obj (live_lt ho)) (w.index_eq arg (live_lt ha)) hil hoa hlo hpv hnx
+  obtain ⟨hsz, hfh, hlive, hidx, hname⟩ := appendPure_frame t obj arg
+  generalize appendPure t obj arg = T at *
+  refine ⟨?_, hsz, hlive, hname, hP, hPv, hNx, hFi, hLa⟩
+  apply w.transfer hsz hfh hlive hidx
+  · intro x hx
+    rw [hNx]
+    have h1 : x ≠ arg := fun e => by rw [e, ha] at hx; cases hx
+    have h2 : ¬ (x = La t obj ∧ La t obj ≠ INV) := fun ⟨e, h⟩ => by
+      have := lpo.lla.resolve_left h
+      rw [← e, hx] at this; cases this
+    simp [h1, h2]
+  · exact append_loc w ho ha hp hoa hlive hP hPv hNx hFi hLa
+  · -- ranks: everything below `arg` is lifted above `obj`
+    classical
+    refine ⟨fun x => if anc t arg x then rk x + rk obj + 1 else rk x, fun i hl hpi => ?_⟩
+    rw [hlive] at hl
+    rw [hP] at hpi ⊢
+    by_cases hi : i = arg
+    · subst hi
+      simp only [if_true, hnanc, if_false, w.anc_self ha]
+      omega
+    · simp only [hi, if_false] at hpi ⊢
+      have := hrk i hl hpi
+      have hst := w.anc_step (a := arg) hl hi
+      by_cases h : anc t arg i
+      · simp only [h, hst.1 h, if_true]; omega
+      · have h2 : ¬ anc t arg (P t i) := fun h' => h (hst.2 h')
+        simp only [h, h2, if_false]; exact this
+  · -- order: `arg` goes right after the old last argument
+    refine ⟨fun x => if x = arg then pos (La t obj) + 1 else pos x, fun i hl hni => ?_⟩
+    rw [hlive] at hl
+    rw [hNx] at hni ⊢
+    have C2 := fun j (hj : live t j = true) => (w.lP hj).pv
+    have C3 := fun j (hj : live t j = true) => (w.lP hj).nx
+    have L3 := fun j (hj : live t j = true) => (w.lP hj).lnx
+    grind
+
 end Firefly.C13
